@@ -416,7 +416,36 @@ def r4_weak_back_edges(ctx):
         ctx.check(w, 'weak:%s.%s' % (adt.split('::')[-1], fld), 'back edge %s.%s holds no strong reference to %s' % (adt.split('::')[-1], fld, tgt.split('::')[-1]), None, ty)
 
 
+def r7_tasks_hold_no_module(ctx):
+    """the state captured by a spawned task must not keep its own module alive: the task lives in the module's runtime, which lives in the
+    module context - a future (or the closure producing it) that owns an Arc<ModuleContext> / ModuleRef closes a cycle through the opaque
+    tokio runtime that R1 cannot see.  Checked where des itself builds task futures (runtime::blocks) and wherever it spawns."""
+    ctx.set_rule('C20.R7')
+    P = ctx.P
+    STRONG = ('std::sync::Arc<des::net::module::ctx::ModuleContext>', 'des::net::module::refs::ModuleRef')
+    scope = []
+    for g in P.fn_list:
+        if g.kind == 'promoted':
+            continue
+        if g.key.startswith('des::net::runtime::blocks::') or any(s.name.startswith('tokio::') and s.name.split('::')[-1] in ('spawn', 'spawn_local', 'spawn_blocking') for s in g.calls()):
+            scope.append(g)
+    if not ctx.floor('functions building or spawning task futures', len(scope), 3):
+        return
+    n = 0
+    for g in scope:
+        for b in sorted(g.reachable()):
+            for i, st in enumerate(g.stmts(b)):
+                if st['k'] == 'assign' and st['r']['k'] == 'agg' and st['r'].get('ak') == 'closure':
+                    n += 1
+                    tys = [g.local_ty(o['p']['l']) if o.get('p') else '' for o in st['r']['ops']]
+                    owned = [t for t in tys if not t.startswith('&') and any(t.startswith(x) for x in STRONG)]
+                    ctx.check(not owned, 'task-owns-module:%s' % g.key.replace('des::net::runtime::blocks::', ''),
+                              'no task future or future-producing closure owns a strong handle to its own module', g.where(b), owned)
+    ctx.ok('closure / future aggregates inspected: %d' % n, None)
+
+
 def run(ctx):
+    r7_tasks_hold_no_module(ctx)
     r1_shared_cycles(ctx)
     r2_breakers(ctx)
     r3_globals_cleared(ctx)
